@@ -500,8 +500,15 @@ func (ex *Exec) intToString(x *Term, signed bool) Value {
 	if x.Const && x.U < 0x80 {
 		return StrC(string(rune(x.U)))
 	}
+	// string(i): the UTF-8 encoding of code point i; every value that is not a valid code point (negative, beyond
+	// U+10FFFF, surrogates) yields the encoding of U+FFFD.  The encoding itself is an uninterpreted function.
 	ex.declareUF("utf8enc", []Sort{BVSort(64)}, StrSort)
-	return app(StrSort, "utf8enc", Resize(x, 64, signed))
+	w := Resize(x, 64, signed)
+	valid := And(bvCmp("bvule", w, BVC(64, 0x10FFFF)), Or(bvCmp("bvult", w, BVC(64, 0xD800)), bvCmp("bvugt", w, BVC(64, 0xDFFF))))
+	if signed {
+		valid = And(valid, bvCmp("bvsge", w, BVC(64, 0)))
+	}
+	return app(StrSort, "utf8enc", Ite(valid, w, BVC(64, 0xFFFD)))
 }
 
 func (ex *Exec) stringToBytes(st *State, s *Term, t *types.Slice) Value {
